@@ -566,7 +566,8 @@ def describe_sig(sig):
     return s
 
 
-SW_CAUSE = {0: "strategy", 1: "forced:blocked", 2: "forced:finished", 3: "fault:preempt", 4: "fault:stall", 5: "fair/yield"}
+SW_CAUSE = {0: "strategy", 1: "forced:blocked", 2: "forced:finished", 3: "fault:preempt", 4: "fault:stall", 5: "fair/yield",
+            6: "strategy:after-lock-acquired"}
 
 
 def process_candidate(ctx, runner, syms, cand_path, variant, found_rec, known, outdir, max_seconds=45.0):
